@@ -29,6 +29,7 @@ import re
 import shutil
 import subprocess
 import os
+import tempfile
 
 from ..models import edscript
 
@@ -84,17 +85,33 @@ MUST_REACH = list(ANCHORS)
 PAIRS = {'quick': 50000, 'thorough': 2000000}
 MALFORMED = {'quick': 10000, 'thorough': 350000}      # base scripts; each yields 2 corruptions + up to 4 truncations
 DIFFE = {'quick': 1500, 'thorough': 100000}
+BRK_PAIRS = {'quick': 12000, 'thorough': 400000}
+BRK_MALFORMED = {'quick': 3000, 'thorough': 80000}     # as MALFORMED
+MULTIBLOCK = {'quick': 1600, 'thorough': 50000}        # base scripts; each yields 8..15 truncations
+BRK_DIFFE = {'quick': 600, 'thorough': 30000}
 
 FLOORS = {
-    'quick': {'nontrivial': 40000,
-              'monitors': {'M.apply': 57000, 'M.reject': 50000},
-              'counters': {'cmd:a@0': 7500, 'cmd:a@end': 3500, 'cmd:a@mid': 3500, 'cmd:c1': 7500, 'cmd:cN': 4400,
-                           'cmd:d1': 5000, 'cmd:dN': 3200, 'cmd:c@first': 6000, 'cmd:d@first': 4000,
-                           'cmd:d@last': 5000, 'cmd:c@last': 8000, 'shape:adjacent-hunks': 6000,
-                           'shape:old-empty': 3000, 'shape:new-empty': 2800, 'shape:full-replace': 3500,
-                           'shape:hunks>=2': 8500, 'reject:truncation': 15000, 'reject:command': 10000,
-                           'mode:str': 28000, 'mode:bytes': 28000, 'src:list': 17000, 'src:iter': 17000,
-                           'src:file': 17000}},
+    'quick': {'nontrivial': 64000,
+              'monitors': {'M.apply': 74000, 'M.reject': 91000, 'M.apply.brk': 10000, 'M.reject.brk': 20000},
+              'counters': {'cmd:a@0': 9500, 'cmd:a@end': 4600, 'cmd:a@mid': 4900, 'cmd:c1': 10000, 'cmd:cN': 5900,
+                           'cmd:d1': 6600, 'cmd:dN': 3900, 'cmd:c@first': 8300, 'cmd:d@first': 5500, 'cmd:d@last':
+                           6700, 'cmd:c@last': 10000, 'shape:adjacent-hunks': 7600, 'shape:old-empty': 4100,
+                           'shape:new-empty': 3700, 'shape:full-replace': 4800, 'shape:hunks>=2': 10000,
+                           'shape:hunks=3+': 2000, 'reject:truncation': 32000, 'reject:command': 13000, 'mode:str':
+                           37000, 'mode:bytes': 37000, 'src:list': 26000, 'src:iter': 26000, 'src:file': 26000,
+                           'src:disk': 4500, 'brk:apply': 5200, 'brk:apply/tail-is-dot': 2800,
+                           'brk:apply/head-is-dot': 1300, 'brk:apply/break-before-newline': 4300,
+                           'brk:apply/old-line-kept': 1500, 'brk:apply/text-blocks>=2': 870, 'brk:apply/enc:latin-1':
+                           1200, 'brk:apply/enc:utf-8': 3900, 'brk:apply/src:list': 1300, 'brk:apply/src:iter': 1300,
+                           'brk:apply/src:file': 1300, 'brk:apply/src:disk': 1000, 'brk:apply/U+000D': 970,
+                           'brk:apply/U+000B': 1000, 'brk:apply/U+000C': 990, 'brk:apply/U+001C': 970,
+                           'brk:apply/U+001D': 1000, 'brk:apply/U+001E': 1000, 'brk:apply/U+0085': 990,
+                           'brk:apply/U+2028': 1000, 'brk:apply/U+2029': 1000, 'brk:reject': 10000,
+                           'brk:reject/command': 2300, 'brk:reject/truncation': 7800,
+                           'brk:reject/cut-after-tail-dot-line': 1800, 'brk:reject/enc:latin-1': 2000,
+                           'reject-class:break-in-command': 1400, 'reject-class:truncation/no-final-newline': 3900,
+                           'reject:trunc-multi:first': 910, 'reject:trunc-multi:middle': 3100,
+                           'reject:trunc-multi:last': 3100}},
     'thorough': {'nontrivial': 1100000,
                  'monitors': {'M.apply': 2100000, 'M.reject': 1750000},
                  'counters': {'cmd:a@0': 260000, 'cmd:a@end': 120000, 'cmd:a@mid': 135000, 'cmd:c1': 270000,
@@ -105,12 +122,14 @@ FLOORS = {
                               'reject:command': 350000, 'mode:str': 1050000, 'mode:bytes': 1050000,
                               'src:list': 630000, 'src:iter': 630000, 'src:file': 630000}},
 }
-DIFFE_FLOOR = {'quick': 1500, 'thorough': 100000}      # only demanded when `diff` is installed
+DIFFE_FLOOR = {'quick': 2100, 'thorough': 100000}      # only demanded when `diff` is installed
+DIFFE_BRK_FLOOR = {'quick': 160, 'thorough': 5000}     # ... of which scripts whose text blocks carry an embedded break
 
 ALPHA = ['a', 'b', 'c', '', 'x y', '..', '. ', ' .', '.x', '...', '1a', '2,3d', 'd', '0a', '3c', '1,2c', 'a.',
          'é', '١a', '\t', 'x\r', '.\r', 's/.//', 'w', 'q']
 SRC = ('list', 'iter', 'file')
 SRC_BRK = ('list', 'iter', 'file', 'disk')
+SRC_BRK_W = ('list', 'iter', 'file') * 3 + ('disk',) * 2        # random choice: a real file costs ~10x a StringIO
 # str.splitlines() boundaries other than LF (bytes.splitlines() only knows CR; VT and FF are the bytes a
 # "whitespace" / universal-newline shortcut would also touch)
 BREAKS = ['\r', '\x0b', '\x0c', '\x1c', '\x1d', '\x1e', '\x85', '\u2028', '\u2029']
@@ -345,6 +364,8 @@ def truncations(r, script, blocks, blk=None):
             cutline = last[:r.randint(1, len(last) - 1)]
             if cutline != '.':
                 yield 'mid-line', script[:d - 1] + [cutline]
+            if last[:-1] != '.' and last[:-1] != cutline:      # only the final newline is missing
+                yield 'no-final-newline', script[:d - 1] + [last[:-1]]
 
 
 # ---------------------------------------------------------------------------
@@ -353,7 +374,11 @@ def truncations(r, script, blocks, blk=None):
 def setup(ctx):
     ctx.extra['diff_e'] = 'available' if shutil.which('diff') else 'absent'
     ctx.extra['exhaustive_subspaces'] = ['old = first n<=4 of 4 distinct lines x new = every sequence of length <= 5 over '
-                                         'those lines + 1 fresh line (5593 pairs), str and bytes']
+                                         'those lines + 1 fresh line (5593 pairs), str and bytes',
+                                         '9 non-LF line-boundary characters x %d templates x 19 placements of such a line '
+                                         '(%d pairs), each through two source kinds, str and bytes, and every cut of '
+                                         'every text block of their scripts'
+                                         % (len(BRK_TEMPLATES), sum(1 for _ in enum_brk_pairs()))]
     ctx.extra['self_check'] = {'reference_vouched': 0, 'reference_refused': 0, 'diffe_outside_subset': 0}
 
 
@@ -361,6 +386,12 @@ def conclusive(tier, counters, monitor_evals, extra):
     if extra.get('diff_e') == 'available' and monitor_evals.get('M.diffe', 0) < DIFFE_FLOOR[tier]:
         return 'diff is installed but only %d diff -e scripts were evaluated (floor %d)' % (
             monitor_evals.get('M.diffe', 0), DIFFE_FLOOR[tier])
+    if extra.get('diff_e') == 'available' and counters.get('brk:apply/via:diffe', 0) < DIFFE_BRK_FLOOR[tier]:
+        return 'diff is installed but only %d diff -e scripts with an embedded line-boundary character were evaluated ' \
+               '(floor %d)' % (counters.get('brk:apply/via:diffe', 0), DIFFE_BRK_FLOOR[tier])
+    if counters.get('src:file-cannot-carry', 0):
+        return '%d file sources did not hand the script lines over unchanged (harness assumption broken)' \
+               % counters.get('src:file-cannot-carry', 0)
     return None
 
 
@@ -396,21 +427,176 @@ def cases(ctx):
         for i in range(ctx.size(DIFFE['quick'], DIFFE['thorough'])):
             old, new = gen_pair(r, thorough)
             yield {'kind': 'diffe', 'old': old, 'new': new, 'src': r.choice(SRC), 'mode': 'both'}
+    for case in brk_cases(ctx, thorough):
+        yield case
+
+
+def _latin1(*line_lists):
+    return all(ord(ch) < 256 for lines in line_lists for l in lines for ch in l)
+
+
+def _enc(r, *line_lists):
+    return 'latin-1' if r.random() < 0.4 and _latin1(*line_lists) else 'utf-8'
+
+
+def brk_cases(ctx, thorough):
+    """Line-boundary class and multi-block truncations (see RULE)."""
+    # complete matrix, application + the cuts of every text block
+    r = ctx.rng('brk-enum')
+    for i, (old, new) in enumerate(enum_brk_pairs()):
+        if not ctx.mine(i):
+            continue
+        old, new = list(old), list(new)
+        for src in (SRC_BRK[i % 4], SRC_BRK[(i % 4 + 1 + (i // 4) % 3) % 4]):     # two different source kinds
+            yield {'kind': 'pair', 'old': old, 'new': new, 'src': src, 'split': False, 'mode': 'both',
+                   'enc': 'latin-1' if _latin1(old, new) and (i // 2) % 2 else 'utf-8', 'from': 'brk-enum'}
+        script, blocks = edscript.make_ed_script_indexed(old, new)
+        for blk in blocks:
+            if blk['letter'] != 'd':
+                for tag, cut in truncations(r, script, blocks, blk):
+                    yield {'kind': 'malformed', 'old': old, 'script': cut, 'class': 'truncation', 'cut': tag,
+                           'src': r.choice(SRC_BRK_W), 'mode': 'both', 'enc': _enc(r, old, cut), 'brk': True}
+    # random pairs
+    r = ctx.rng('brk-pairs')
+    for i in range(ctx.size(BRK_PAIRS['quick'], BRK_PAIRS['thorough'])):
+        old, new = gen_pair(r, thorough, brk=True)
+        yield {'kind': 'pair', 'old': old, 'new': new, 'src': r.choice(SRC_BRK_W), 'split': r.random() < 0.15,
+               'mode': 'both', 'enc': _enc(r, old, new), 'from': 'brk-random'}
+    # malformed scripts over the same content
+    r = ctx.rng('brk-malformed')
+    n = 0
+    want = ctx.size(BRK_MALFORMED['quick'], BRK_MALFORMED['thorough'])
+    while n < want:
+        old, new = gen_pair(r, thorough, brk=True)
+        script, blocks = edscript.make_ed_script_indexed(old, new, split_replace=r.random() < 0.15)
+        if not blocks:
+            continue
+        n += 1
+        for _ in range(2):
+            cls, at, bad = corrupt(r, script, blocks, brk=True)
+            yield {'kind': 'malformed', 'old': old, 'script': bad, 'class': cls, 'at': at, 'src': r.choice(SRC_BRK_W),
+                   'mode': 'both', 'enc': _enc(r, old, bad), 'brk': True}
+        for tag, cut in truncations(r, script, blocks):
+            yield {'kind': 'malformed', 'old': old, 'script': cut, 'class': 'truncation', 'cut': tag,
+                   'src': r.choice(SRC_BRK_W), 'mode': 'both', 'enc': _enc(r, old, cut), 'brk': True}
+    # scripts with >= 3 text blocks: applied, then cut inside the first / a middle / the last block
+    r = ctx.rng('multiblock')
+    n = 0
+    want = ctx.size(MULTIBLOCK['quick'], MULTIBLOCK['thorough'])
+    while n < want:
+        brk = r.random() < 0.5
+        old, new = gen_multiblock(r, brk)
+        script, blocks = edscript.make_ed_script_indexed(old, new, split_replace=r.random() < 0.15)
+        tb = [b for b in blocks if b['letter'] != 'd']
+        if len(tb) < 3:
+            continue
+        n += 1
+        src = SRC_BRK_W if brk else SRC
+        if n % 4 == 0:
+            yield {'kind': 'script', 'old': old, 'new': new, 'script': script, 'src': r.choice(src), 'mode': 'both',
+                   'enc': _enc(r, old, new), 'from': 'multiblock'}
+        roles = [('last', tb[-1]), ('middle', r.choice(tb[1:-1]))]
+        if r.random() < 0.3:
+            roles.append(('first', tb[0]))
+        for role, blk in roles:
+            for tag, cut in truncations(r, script, blocks, blk):
+                yield {'kind': 'malformed', 'old': old, 'script': cut, 'class': 'truncation', 'cut': tag,
+                       'role': role, 'nblocks': len(tb), 'src': r.choice(src), 'mode': 'both',
+                       'enc': _enc(r, old, cut), 'brk': brk}
+    if shutil.which('diff'):
+        r = ctx.rng('brk-diffe')
+        for i in range(ctx.size(BRK_DIFFE['quick'], BRK_DIFFE['thorough'])):
+            old, new = gen_pair(r, thorough, brk=True)
+            yield {'kind': 'diffe', 'old': old, 'new': new, 'src': r.choice(SRC_BRK_W), 'mode': 'both',
+                   'enc': _enc(r, old, new), 'from': 'brk-diffe'}
 
 
 # ---------------------------------------------------------------------------
 # execution
 
-def _conv(lines, mode):
-    return [l.encode('utf-8') for l in lines] if mode == 'bytes' else list(lines)
+def _conv(lines, mode, enc='utf-8'):
+    return [l.encode(enc) for l in lines] if mode == 'bytes' else list(lines)
 
 
-def _source(script, src, mode):
+def _case_enc(case, *line_lists):
+    enc = case.get('enc', 'utf-8')
+    if enc == 'latin-1' and not _latin1(*line_lists):
+        enc = 'utf-8'
+    return enc
+
+
+def _file_dir(ctx):
+    """Directory for the real files of the 'disk' source: RAM-backed when the box has one (a real OS file either
+    way - FileIO + BufferedReader / TextIOWrapper - but two orders of magnitude cheaper to rewrite per case)."""
+    if os.path.isdir('/dev/shm') and os.access('/dev/shm', os.W_OK):
+        d = tempfile.mkdtemp(prefix='vp-%s-' % PROP, dir='/dev/shm')
+        ctx._tmpdirs.append(d)
+        return d
+    return ctx.tmpdir()
+
+
+def _open_source(ctx, script, src, mode):
+    """The script as the requested kind of source; never translates or re-splits anything (see ASSUMPTIONS)."""
     if src == 'iter':
         return (l for l in script)
-    if src == 'file':
-        return io.BytesIO(b''.join(script)) if mode == 'bytes' else io.StringIO(''.join(script), newline='\n')
+    if src in ('file', 'disk'):
+        if mode == 'bytes':
+            nl, has_cr = None, False
+        else:
+            has_cr = any('\r' in l for l in script)
+            nl = '\n' if has_cr else ''
+        if src == 'file':
+            return io.BytesIO(b''.join(script)) if mode == 'bytes' else io.StringIO(''.join(script), newline=nl)
+        d = getattr(ctx, '_c18_fdir', None)
+        if d is None:
+            d = ctx._c18_fdir = _file_dir(ctx)
+        path = os.path.join(d, 'script.ed')
+        with open(path, 'wb') as f:
+            f.write(b''.join(script) if mode == 'bytes' else ''.join(script).encode('utf-8'))
+        return open(path, 'rb') if mode == 'bytes' else open(path, 'r', encoding='utf-8', newline=nl)
     return list(script)
+
+
+def _source(ctx, script, src, mode):
+    """-> (source object, effective src).  File sources are read back once first: a form that does not hand over
+    exactly the script lines is not used for that script."""
+    if src in ('file', 'disk'):
+        f = _open_source(ctx, script, src, mode)
+        try:
+            carried = list(f) == list(script)
+        finally:
+            f.close()
+        if not carried:
+            ctx.count('src:file-cannot-carry')
+            src = 'iter'
+    return _open_source(ctx, script, src, mode), src
+
+
+def _close(source):
+    if hasattr(source, 'close'):
+        source.close()
+
+
+def _brk_profile(lines):
+    """(embedded, at_end, tail_dot, head_dot, chars) over `lines`: a break character in the middle of a line / right
+    before the newline / followed only by '.' / preceded only by '.'."""
+    embedded = at_end = tail_dot = head_dot = False
+    chars = set()
+    for l in lines:
+        body = l[:-1] if l.endswith('\n') else l
+        if not BREAKSET.intersection(body):
+            continue
+        if body[-1] in BREAKSET:
+            at_end = True
+        for i, ch in enumerate(body[:-1]):
+            if ch in BREAKSET:
+                embedded = True
+                chars.add(ch)
+                if body[i + 1:] == '.':
+                    tail_dot = True
+                if body[:i] == '.':
+                    head_dot = True
+    return embedded, at_end, tail_dot, head_dot, chars
 
 
 def _modes(case):
@@ -447,11 +633,15 @@ def _shape_counters(ctx, old, new, parsed):
         prev_first = first
 
 
-def _name_mechanism(ds, script_t, mode, src, want_patches):
+def _name_mechanism(ctx, ds, script_t, mode, src, want_patches):
     """Boundary check already failed; compare parsed triples with the reference
     triples only to name WHICH conversion is off."""
     try:
-        got = list(ds.patches_from_ed_script(_source(script_t, src, mode)))
+        source = _source(ctx, script_t, src, mode)[0]
+        try:
+            got = list(ds.patches_from_ed_script(source))
+        finally:
+            _close(source)
     except Exception as e:      # noqa - naming only
         return 'wellformed-script-rejected/%s' % type(e).__name__
     cmds = [l for l in script_t]
@@ -463,6 +653,8 @@ def _name_mechanism(ds, script_t, mode, src, want_patches):
         g = (g[0], g[1], list(g[2]))
         if g != w:
             if g[2] != w[2]:
+                if g[2] and w[2] and type(g[2][0])().join(g[2]) == type(g[2][0])().join(w[2]):
+                    return 'text-block-lines-resplit'
                 return 'text-block-content-wrong'
             single = (w[1] - w[0] == 1)
             return {'a': 'append-index-conversion',
@@ -494,22 +686,48 @@ def check_apply(ctx, old, script, new, case, via):
     if script:
         ctx.nontrivial(case={'old': old, 'new': new, 'script': script})
     src = case.get('src', 'list')
+    enc = _case_enc(case, old, new, script)
+    # line-boundary class: measured on the script itself, not taken from the generator's label
+    text = [l for p in parsed for l in p[3]]
+    embedded, at_end, tail_dot, head_dot, chars = _brk_profile(text)
+    if embedded:
+        ctx.count('brk:apply')
+        ctx.count('brk:apply/src:%s' % src)
+        ctx.count('brk:apply/via:%s' % via)
+        ctx.count('brk:apply/enc:%s' % enc)
+        if len([p for p in parsed if p[3]]) >= 2:
+            ctx.count('brk:apply/text-blocks>=2')
+        if tail_dot:
+            ctx.count('brk:apply/tail-is-dot')
+        if head_dot:
+            ctx.count('brk:apply/head-is-dot')
+        for ch in chars:
+            ctx.count('brk:apply/U+%04X' % ord(ch))
+    if at_end:
+        ctx.count('brk:apply/break-before-newline')
+    if script and _brk_profile([l for l in old if l in new])[0]:
+        ctx.count('brk:apply/old-line-kept')
     for mode in _modes(case):
-        o, s, n = _conv(old, mode), _conv(script, mode), _conv(new, mode)
-        small = {'kind': 'script', 'old': old, 'script': script, 'new': new, 'src': src, 'mode': mode}
+        o, s, n = _conv(old, mode, enc), _conv(script, mode, enc), _conv(new, mode, enc)
+        small = {'kind': 'script', 'old': old, 'script': script, 'new': new, 'src': src, 'mode': mode, 'enc': enc}
         ctx.mon('M.apply')
         if via == 'diffe':
             ctx.mon('M.diffe')
+        if embedded:
+            ctx.mon('M.apply.brk')
         ctx.count('mode:%s' % mode)
+        source, eff = _source(ctx, s, src, mode)
         try:
-            ret = ds.patch_lines(o, ds.patches_from_ed_script(_source(s, src, mode)))
+            ret = ds.patch_lines(o, ds.patches_from_ed_script(source))
         except Exception as e:
             ctx.violation('wellformed-script-rejected/%s' % type(e).__name__,
                           '%s script %r on %r raised %r (expected result %r)' % (mode, script, old, e, new), small)
             continue
-        if o != n:
-            want = [(f, l, _conv(t, mode)) for (f, l, t) in edscript.to_patches(parsed)]
-            key = _name_mechanism(ds, s, mode, src, want)
+        finally:
+            _close(source)
+        if o != n:                      # list against list: every element is one line
+            want = [(f, l, _conv(t, mode, enc)) for (f, l, t) in edscript.to_patches(parsed)]
+            key = _name_mechanism(ctx, ds, s, mode, eff, want)
             ctx.violation(key, '%s: old=%r script=%r expected=%r got=%r' % (mode, old, script, n, o), small)
         elif ret is not None:
             pass    # return value is not part of the statement
@@ -534,36 +752,69 @@ def check_reject(ctx, case):
     ctx.count('reject:truncation' if cls == 'truncation' else 'reject:command')
     ctx.count('reject-class:%s' % (cls if cls != 'truncation' else 'truncation/%s' % case.get('cut', '?')))
     ctx.count('src:%s' % src)
+    enc = _case_enc(case, old, script)
+    brk = _brk_profile(script)[0]
+    if brk:
+        ctx.count('brk:reject')
+        ctx.count('brk:reject/%s' % ('truncation' if cls == 'truncation' else 'command'))
+        ctx.count('brk:reject/enc:%s' % enc)
+        if cls == 'truncation' and _brk_profile(script[-1:])[2]:
+            ctx.count('brk:reject/cut-after-tail-dot-line')
+    if cls == 'truncation' and case.get('role'):
+        # measured: number of text blocks that are complete before the cut
+        done = _complete_text_blocks(script)
+        if done >= 1 and case.get('nblocks', 0) - done >= 2:
+            ctx.count('reject:trunc-multi:middle')
+        elif done >= 2:
+            ctx.count('reject:trunc-multi:last')
+        elif done == 0 and case.get('nblocks', 0) >= 3:
+            ctx.count('reject:trunc-multi:first')
     ctx.nontrivial(case={'old': old, 'script': script, 'class': cls})
     for mode in _modes(case):
-        o, s = _conv(old, mode), _conv(script, mode)
+        o, s = _conv(old, mode, enc), _conv(script, mode, enc)
         small = dict(case)
         small['mode'] = mode
+        small['enc'] = enc
         ctx.mon('M.reject')
+        if brk:
+            ctx.mon('M.reject.brk')
+        source = _source(ctx, s, src, mode)[0]
         try:
-            ds.patch_lines(o, ds.patches_from_ed_script(_source(s, src, mode)))
+            ds.patch_lines(o, ds.patches_from_ed_script(source))
         except ValueError:
             continue
         except Exception as e:
             ctx.violation('malformed-script-wrong-exception/%s' % type(e).__name__,
                           '%s script %r (%s) raised %r instead of ValueError' % (mode, script, cls, e), small)
             continue
+        finally:
+            _close(source)
         if cls == 'truncation':
             key = 'unterminated-text-block-accepted'
         else:
             key = 'malformed-command-accepted/%s' % cls
         ctx.violation(key, '%s script %r (%s%s) was applied without error: %r -> %r'
-                      % (mode, script, cls, (' at line %d' % case['at']) if 'at' in case else '', _conv(old, mode), o),
-                      small)
+                      % (mode, script, cls, (' at line %d' % case['at']) if 'at' in case else '',
+                         _conv(old, mode, enc), o), small)
+
+
+def _complete_text_blocks(script):
+    """Number of a/c blocks the reference interpreter reads completely before it refuses a cut script."""
+    for k in range(len(script), -1, -1):
+        try:
+            return len([p for p in edscript.parse_ed_script(script[:k]) if p[0] != 'd'])
+        except edscript.EdScriptError:
+            continue
+    return 0
 
 
 _LINE_RE = re.compile(b'[^\n]*\n|[^\n]+$')
 
 
 def run_diff_e(ctx, old, new):
-    d = getattr(ctx, '_c18_dir', None)
+    d = getattr(ctx, '_c18_fdir', None)
     if d is None:
-        d = ctx._c18_dir = ctx.tmpdir()
+        d = ctx._c18_fdir = _file_dir(ctx)
     pa, pb = os.path.join(d, 'a'), os.path.join(d, 'b')
     with open(pa, 'wb') as f:
         f.write(''.join(old).encode('utf-8'))
